@@ -326,8 +326,11 @@ func (w *world) exec(op string) string {
 		if v := atoi(f[2]); v != 0 {
 			meta.Labels = []*metapb.StoreLabel{{Key: "zone", Value: labelValueName(v)}}
 		}
-		if f[4] != "0" {
+		switch f[4] { // meta state: 0 Up, 1 Tombstone, 2 Offline
+		case "1":
 			meta.State = metapb.StoreState_Tombstone
+		case "2":
+			meta.State = metapb.StoreState_Offline
 		}
 		hb := time.Now()
 		if f[3] != "0" {
